@@ -417,7 +417,8 @@ pub fn cfg_strategy(depth: u32) -> BoxedStrategy<Cfg> {
     prop_oneof![
         5 => leaf_cfg(),
         4 => (inner, 0usize..=3).prop_map(|(c, d)| Cfg::Alt(Box::new(c), d)),
-        7 => proptest::collection::vec(layer, 1..=4).prop_map(Cfg::Ovl),
+        6 => proptest::collection::vec(layer, 1..=4).prop_map(Cfg::Ovl),
+        1 => (leaf_cfg(), 1usize..=4).prop_map(|(c, n)| Cfg::OvlSub(Box::new(c), n)),
     ]
     .boxed()
 }
@@ -434,9 +435,11 @@ pub fn layer_strategy(depth: u32) -> BoxedStrategy<Cfg> {
 pub fn overlay_cfg_strategy(min_layers: usize, depth: u32) -> BoxedStrategy<Cfg> {
     let layer = layer_strategy(depth.saturating_sub(1));
     let ovl = proptest::collection::vec(layer, min_layers..=4).prop_map(Cfg::Ovl);
+    let sub = (leaf_cfg(), min_layers..=4).prop_map(|(c, n)| Cfg::OvlSub(Box::new(c), n));
     prop_oneof![
         6 => ovl.clone(),
         1 => (ovl, 0usize..=2).prop_map(|(c, d)| Cfg::Alt(Box::new(c), d)),
+        2 => sub,
     ]
     .boxed()
 }
